@@ -35,6 +35,11 @@ T_C07_FailedIsRecreated == IsPoll =>
    \A p \in 1..Len(PE) : (PE[p].t = "ready" /\ PE[p].a = 2) =>
       \/ \E q \in (p + 1)..Len(PE) : PE[q].t \in {"create", "createfail"} /\ PE[q].k = PE[p].k
       \/ obs.st.sstatus[W0][PE[p].k] \in {"Failed", "Restarting"}
+\* nothing that was dispatched to a worker disappears: as long as the worker is neither shutting down nor gone, the
+\* connections dispatched to it and not yet called are exactly what is (measured) in its queue
+T_C07_QueueMeasured ==
+   (obs.ev = "step" /\ obs.st.wstate[W0] \in {"Unavailable", "Available", "Restarting"}) =>
+      Len(obs.st.chan[W0]) = obs.st.chanLen[W0]
 T_C07_NoneLost == (IsPoll /\ obs.st.wstate[W0] = "Available" /\ obs.st.scriptsEmpty) => obs.st.chanLen[W0] = 0
 \* C06 worker side
 ReplyNow == obs.replyNow[W0]
